@@ -82,7 +82,8 @@ def spec(tier):
             f"with and without 0 + / -1 +) x {len(GROUPINGS)} grouping expressions (single factor, interaction, sum, "
             "nested /, *, C(k), ordered factor), one or two group terms per formula plus random common terms; "
             "(A) on random unbalanced frames (level counts 2..4, some cells empty) and (B) on fully crossed "
-            "replicated frames. distinct = distinct (formula, level counts, frame seed); non-trivial = effect "
+            "replicated frames; wide grouping factors (144, 256, 260 and 520 cells, one block above 2**20 entries). "
+            "distinct = distinct (formula, level counts, frame seed); non-trivial = effect "
             "other than the bare intercept or a grouping with more than one factor."
         ),
         "assumptions": [
